@@ -74,3 +74,45 @@ Proof.
   exact (built_router_names_nodup d g c Hb Hc).
 Qed.
 Print Assumptions C02_model_built.
+
+(* Part 5: on the HARDWARE model (Hw.v: floo_route_select's IdTable decision with its 32-bit index field,
+   NoLoopback, signals followed from their driver to their reader), for every description and on both the
+   request and the response network: a flit injected at any interface s0 with the identity of any other
+   interface t is delivered to t.  Hypotheses, all decidable and all evaluated in the non-vacuity example:
+   the wiring checker passes on the emitted netlist (C05, second half: every declared signal has one driver
+   and one reader named by it -- the port pairing the proof also needs is C05_model, a theorem), shortest
+   paths to t run through routers, port counts fit the index field, s0 is attached to a router from which
+   t is reachable.  `attach nt s0` is the link s0 sends on: its first link to a router for requests, the
+   reverse of its first link from a router for responses. *)
+From FV Require Import HwProofs.
+Theorem C02_hw_delivered :
+  forall (d : desc) (g : graph) (c : compiled) (ri : rinfo) (n : netlist) (t : cni) (id : Z) (nt : net),
+    nt = Req \/ nt = Rsp ->
+    build d = Ok g -> compile d g = Ok c -> gen_routing_info sp_reference c = Ok ri -> emit c ri = Ok n ->
+    d_algo d = ID -> In t (c_nis c) -> id_num (cn_id t) = Ok id ->
+    (forall u p, is_router c u -> sp_reference g u (cn_name t) = Some p -> forall x, In x (removelast p) -> is_router c x) ->
+    chk_C05 n = [] ->
+    (forall r, In r (c_rts c) -> Z.of_nat (length (cr_out r)) <= 2 ^ 32) ->
+    forall s0 r0 p, In s0 (c_nis c) -> cn_name s0 <> cn_name t -> snd (attach nt s0) = r0 -> is_router c r0 ->
+      sp_reference g r0 (cn_name t) = Some p ->
+      let tr := send n nt (emit_ni d (ri_offset ri) s0) (HId id) in
+      t_out tr = Delivered (cn_name t) (HId id) /\ S (length (t_rts tr)) = length p.
+Proof. exact hw_send_ref. Qed.
+Print Assumptions C02_hw_delivered.
+
+Example C02_hw_nonvacuous :
+  match (do g <- build (ex_tree ID); do c <- compile (ex_tree ID) g; do ri <- gen_routing_info sp_reference c;
+         do n <- emit c ri; Ok (c, (ri, n))) with
+  | Ok (c, (ri, n)) =>
+      match chk_C05 n with [] => true | _ => false end &&
+      forallb (transitb sp_reference c) (c_nis c) &&
+      forallb (fun nt => forallb (fun s0 => forallb (fun t =>
+          str_eqb (cn_name s0) (cn_name t) ||
+          match id_num (cn_id t), t_out (send n nt (emit_ni (ex_tree ID) (ri_offset ri) s0)
+                                           (HId (match cn_id t with IdN k => k | _ => 0 end))) with
+          | Ok _, Delivered u _ => str_eqb u (cn_name t)
+          | _, _ => false
+          end) (c_nis c)) (c_nis c)) [Req; Rsp]
+  | Err _ => false
+  end = true.
+Proof. vm_compute. reflexivity. Qed.
